@@ -69,6 +69,13 @@ ENTRIES = {
         kind="api", callee=r"^channel::Receiver::recv$", allowed={"nexosim/src/simulation.rs": 1},
         why="the only consumer of a model's mailbox is the model loop spawned by add_model",
     ),
+    "mailbox-address": dict(
+        kind="api", callee=r"^simulation::mailbox::Mailbox::address$",
+        allowed={"nexosim/src/model/context.rs": 1, "nexosim/src/simulation.rs": 1, "nexosim/src/simulation/mailbox.rs": 1},
+        why="an Address is a sender handle, and dropping the last sender handle closes the mailbox for good; the framework creates one only "
+            "where it is kept (the model's own Context) or handed to the user (BuildContext::address, From<&Mailbox>) - a temporary one "
+            "created and dropped while it is the only handle silently disconnects the model",
+    ),
     "seq-future-build": dict(
         kind="api", callee=r"^util::seq_futures::SeqFuture::(new|push)$", allowed={"nexosim/src/simulation.rs": 3},
         why="same-origin sequences are only assembled by the stepping loop",
